@@ -324,7 +324,10 @@ def deg_allow(p, c, K, E, it, absv):
        The solver accepts when ITS violation is < eps, so against K:  max_up (g_a - gerr_a) - min_down (g_b + gerr_b) <= eps + 2 drift."""
     n = p["n"]; isf = c["ctype"] == "f"
     gerr = [0.0] * n; fpart = 0.0
-    if isinstance(E, tuple): E = E[1] if c["prec"] else E[0]          # (single evaluations, batch evaluation of the precomputed matrix)
+    # (single evaluations, batch evaluation of the precomputed matrix).  C07_PREC_SINGLE_BOUND=1 judges the precomputed matrix by the bound of
+    # the single evaluations as well: the runs it then flags are the observation recorded in harness/c07_findings.txt (precomputed Gaussian
+    # matrix of points far from the origin), not a different code path of the check
+    if isinstance(E, tuple): E = E[1] if (c["prec"] and not os.environ.get("C07_PREC_SINGLE_BOUND")) else E[0]
     for i in range(n):
         e = 0.0; f = 0.0
         for j in range(n):
@@ -709,7 +712,7 @@ def main():
             if M is not None and idx is not None:
                 nblock += 1; dims = 2 * n; Mv = [float.fromhex(v) for v in M]
                 if p.get("deg"):
-                    Kd = Dk[id(p)][0]; Ed = Dk[id(p)][2 if c["prec"] else 1]; isf = c["ctype"] == "f"       # entry bound of deg_kernel / deg_allow instead of the flat 1e-12
+                    Kd = Dk[id(p)][0]; Ed = Dk[id(p)][2 if (c["prec"] and not os.environ.get("C07_PREC_SINGLE_BOUND")) else 1]; isf = c["ctype"] == "f"       # entry bound of deg_kernel / deg_allow instead of the flat 1e-12
                     mtol = lambda i, j: (Ed[i][j] + ((U24 * (abs(Kd[i][j]) + Ed[i][j]) + 2.0 ** -150) if isf else 0.0)) * (1 + 1e-12)
                 else:
                     Kd = Kc[id(p)][0]; mtol = lambda i, j: 1e-12 * max(1.0, abs(Kd[i][j]))
